@@ -68,12 +68,16 @@ Definition C14_renumber_quad_stmt : Prop :=
   forall j, (j < 4)%nat -> forall k P nb, planar_convex P ->
     let p := map (fun i => (i + j) mod 4)%nat [0; 1; 2; 3]%nat in
     quadq k quad_E (renum P p) (fun i => nb (papply p i)) = quadq k quad_E P nb.
-(** proved part: the generator of the cyclic group, from the hypothesis on the normals at corners 0, 1 *)
-Definition C14_renumber_quad_partial_stmt : Prop :=
+(** the generator of the cyclic group alone, from the hypothesis on the normals at corners 0, 1 only *)
+Definition C14_renumber_quad_step_stmt : Prop :=
   forall k P nb lam, (0 < lam)%R ->
     cross (vsub (P 2%nat) (P 1%nat)) (vsub (P 0%nat) (P 1%nat))
       = vscale lam (cross (vsub (P 1%nat) (P 0%nat)) (vsub (P 3%nat) (P 0%nat))) ->
     quadq k quad_E (renum P quad_shift) (fun i => nb (papply quad_shift i)) = quadq k quad_E P nb.
+(** [planar_convex] does not depend on which corner is called 0: it says that all four corner
+    normals are positive multiples of one common vector, and it is preserved by the generator *)
+Definition C14_planar_convex_sym_stmt : Prop :=
+  forall P, (planar_convex P <-> pconvex_sym P) /\ (planar_convex P -> planar_convex (renum P quad_shift)).
 
 (** stretching the unit cube: the three directions agree, the value never drops below the cube's
     and is non-decreasing in the stretch factor *)
@@ -133,11 +137,31 @@ Proof.
   rewrite forallb_forall in H. intros p Hp k P nb. apply hexq_renumber. apply H. exact Hp.
 Qed.
 
-Theorem C14_renumber_quad_partial : C14_renumber_quad_partial_stmt.
+Theorem C14_renumber_quad : C14_renumber_quad_stmt.
+Proof.
+  assert (H : forallb (fun i => edges_ok quad_E (cyc i)) [0; 1; 2; 3]%nat = true) by (vm_compute; reflexivity).
+  intros j Hj k P nb HP. exact (quadq_renumber_cyclic k quad_E P nb j Hj H HP).
+Qed.
+
+Theorem C14_renumber_quad_step : C14_renumber_quad_step_stmt.
 Proof.
   assert (H : edges_ok quad_E quad_shift = true) by (vm_compute; reflexivity).
   intros k P nb lam Hl Hn. apply (quadq_renumber_shift k quad_E P nb lam H Hl Hn).
 Qed.
+
+Theorem C14_planar_convex_sym : C14_planar_convex_sym_stmt.
+Proof. intro P. split; [exact (pconvex_iff_sym P) | exact (pconvex_shift P)]. Qed.
+
+(** the hypothesis of [C14_renumber_quad] is satisfiable (unit square; a trapezoid that is no
+    parallelogram) and excludes folded quadrilaterals *)
+Example planar_convex_square : planar_convex sq_pts.
+Proof. exact pconvex_square. Qed.
+Example planar_convex_trapezoid : planar_convex trapezoid_pts.
+Proof. exact pconvex_trapezoid. Qed.
+Example C14_renumber_quad_trapezoid : forall k nb,
+  quadq k quad_E (renum trapezoid_pts [2; 3; 0; 1]%nat) (fun i => nb (papply [2; 3; 0; 1]%nat i))
+  = quadq k quad_E trapezoid_pts nb.
+Proof. intros k nb. exact (C14_renumber_quad 2%nat ltac:(lia) k trapezoid_pts nb pconvex_trapezoid). Qed.
 
 Lemma K_eps : (eps_a K <= 1 / 2 /\ 0 <= eps_l K <= 1)%R.
 Proof. cbv [K rk zk eps_a eps_l rd z_ea z_el fst snd dy powerRZ]. simpl pow. repeat split; lra. Qed.
@@ -149,12 +173,14 @@ Qed.
 
 Theorem C14_stretch : C14_stretch_stmt.
 Proof.
-  assert (HT : hex_T = ref_T) by (vm_compute; reflexivity).
+  (* the tabulated side table is the reference one up to the order of the sides and the starting
+     corner of each side cycle (no neighbours: the value does not depend on either) *)
+  assert (HT : sides_same hex_T ref_T = true) by (vm_compute; reflexivity).
   assert (HE : edges_same hex_E ref_E = true) by (vm_compute; reflexivity).
   destruct K_eps as [Hea Hel]. destruct K_w_as as (b & e & f & Hw & Hb & He & Hf).
   assert (Q : forall x y z, (1 <= x)%R -> (1 <= y)%R -> (1 <= z)%R ->
               hexq K hex_T hex_E (box x y z) none_nb = hexq (with_eps K 0 0) ref_T ref_E (box x y z) none_nb).
-  { intros x y z Hx Hy Hz. rewrite HT, (hexq_same_edges K ref_T hex_E ref_E _ _ HE).
+  { intros x y z Hx Hy Hz. rewrite (hexq_same_sides K hex_T ref_T hex_E _ HT), (hexq_same_edges K ref_T hex_E ref_E _ _ HE).
     apply hexq_box_guarded; auto using K_guard_max. }
   intros a a' [Ha Ha'] q. unfold q.
   assert (H1 : (1 <= 1)%R) by lra. assert (Ha1 : (1 <= a')%R) by lra.
@@ -172,5 +198,7 @@ Print Assumptions C14_rigid.
 Print Assumptions C14_scale_law.
 Print Assumptions C14_scale.
 Print Assumptions C14_renumber.
-Print Assumptions C14_renumber_quad_partial.
+Print Assumptions C14_renumber_quad.
+Print Assumptions C14_renumber_quad_step.
+Print Assumptions C14_planar_convex_sym.
 Print Assumptions C14_stretch.
